@@ -84,6 +84,7 @@ from guppylang.std.quantum import h, x, cx, measure, discard
 from guppylang.std.builtins import int as gint, float as gfloat
 from guppylang.std.option import Option, nothing, some
 from guppylang.std.either import Either, left, right
+from guppylang.std.lang import Copy, Drop
 from collections.abc import Callable
 """
 
